@@ -41,6 +41,10 @@ def gen_cases(ctx, n_hist, n_tree, n_consumer, tree_ops=(6, 7), big=False,
             # the dispatcher is copied (copy.deepcopy) in the middle of the history and the copy
             # goes its own way: the two must not influence each other
             c["fork_at"] = rng.choice([1, 1, 2, 3, rng.randint(1, 10)])
+        elif rng.random() < 0.12:
+            # a second dispatcher for the SAME instance object (same filter object) follows its own
+            # history, interleaved with this one: the two must not influence each other
+            c["sibling"] = True
         yield c
     for i in range(n_tree):
         inst = gen.gen_instance(rng, rng.choice(classes or gen.INSTANCE_CLASSES),
@@ -99,7 +103,26 @@ def run_history(ctx, case, hooks: Hooks, instance=None):
     k = 0
     abandon = list(case.get("abandon_after") or []) if explicit is None else []
     fork_at = case.get("fork_at") if explicit is None else None
+    sib = None
+    if case.get("sibling") and explicit is None:
+        from job_shop_lib.dispatching import Dispatcher
+        sib = Run(inst, case.get("filter"), instance=run.instance,
+                  dispatcher=Dispatcher(run.instance,
+                                        ready_operations_filter=run.d.ready_operations_filter))
+        ctx.count("histories_with_a_sibling_dispatcher")
     while not run.done():
+        if sib is not None and rng.random() < 0.6:
+            if sib.done():
+                sib.d.reset(); sib.r.reset()
+            o9, m9 = sib.choose(rng, rng.choice(gen.POLICIES))
+            sib.dispatch(o9, m9)
+            ctx.count("sibling_dispatches")
+            for who, x in (("sibling", sib), ("original", run)):
+                bad = _state_vs_ref(x)
+                if bad:
+                    hooks.fork_diverged(run, dict(bad, who=who, when="after a dispatch on a second "
+                                                  "dispatcher for the same instance object"))
+                    return run
         if fork_at is not None and len(run.r.history) == fork_at:
             fork_at = None
             detail = _fork(ctx, run, case, rng)
@@ -175,6 +198,12 @@ def run_history(ctx, case, hooks: Hooks, instance=None):
         k += 1
         ctx.count("dispatches")
         hooks.after(run, o, m)
+        if sib is not None:
+            bad = _state_vs_ref(sib)
+            if bad:
+                hooks.fork_diverged(run, dict(bad, who="sibling", when="after a dispatch on the "
+                                              "first dispatcher for the same instance object"))
+                return run
     hooks.end(run)
     return run
 
